@@ -54,6 +54,36 @@ LINKS = {
                       "rtr_pdu_convert_header_byte_order", "rtr_pdu_header_to_host_byte_order", "tr_recv_all"],
         "ops": "pdu+io",
     },
+    "C08": {
+        "modules": ["RtrProofs.CLinkFsm", "RtrProofs.CLinkFsmModel"],
+        "theorems": ["Rtr.CLink.rtr_fsm_step_eq", "Rtr.CLink.rtr_purge_outdated_records_eq", "Rtr.CLink.rtr_fsm_start_eq",
+                     "Rtr.CLink.fsm_error_states_retry", "Rtr.CLink.fsm_no_data_retry", "Rtr.CLink.fsm_no_incr_retry", "Rtr.CLink.fsm_fast_reconnect",
+                     "Rtr.CLink.fsm_every_iteration_calls_out", "Rtr.CLink.fsm_every_iteration_consumes", "Rtr.CLink.fsm_shutdown_exits",
+                     "Rtr.CLink.fsm_closed_or_invalid_spins", "Rtr.CLink.fsmStep_eq_skeleton", "Rtr.CLink.purgeOutdated_eq_skeleton"],
+        "functions": ["rtr_fsm_start", "rtr_purge_outdated_records"],
+        "ops": "fsm", "xtrace": True,
+    },
+    "C07": {
+        "modules": ["RtrProofs.CLinkFsm", "RtrProofs.CLinkFsmModel"],
+        "theorems": ["Rtr.CLink.rtr_purge_outdated_records_eq", "Rtr.CLink.purge_no_data", "Rtr.CLink.purge_fresh", "Rtr.CLink.purge_expired",
+                     "Rtr.CLink.fsm_connecting_purges_first", "Rtr.CLink.rtr_stop_eq", "Rtr.CLink.stop_purges", "Rtr.CLink.stop_not_running",
+                     "Rtr.CLink.purgeOutdated_eq_skeleton", "Rtr.CLink.stop_eq_skeleton"],
+        "functions": ["rtr_purge_outdated_records", "rtr_fsm_start", "rtr_stop"],
+        "ops": "fsm",
+    },
+    "C05": {
+        "modules": ["RtrProofs.CLinkFsm"],
+        "theorems": ["Rtr.CLink.rtr_fsm_step_eq", "Rtr.CLink.fsm_connecting_query_choice", "Rtr.CLink.fsm_connecting_open_fails",
+                     "Rtr.CLink.fsm_reset_query", "Rtr.CLink.fsm_no_data_retry", "Rtr.CLink.fsm_no_incr_retry", "Rtr.CLink.stop_purges"],
+        "functions": ["rtr_fsm_start", "rtr_stop"],
+        "ops": "fsm",
+    },
+    "C13": {
+        "modules": ["RtrProofs.CLinkFsm"],
+        "theorems": ["Rtr.CLink.rtr_fsm_step_eq", "Rtr.CLink.fsm_connecting_purges_first", "Rtr.CLink.fsm_fast_reconnect"],
+        "functions": ["rtr_fsm_start"],
+        "ops": "fsm",
+    },
     "C10": {
         "modules": ["RtrProofs.CLinkMisc", "RtrProofs.CLinkSpki"],
         "theorems": ["Rtr.CLink.tommy_inthash_u32_eq", "Rtr.CLink.key_entry_cmp_eq", "Rtr.CLink.key_entry_cmp_model",
@@ -73,7 +103,7 @@ LINKS = {
 }
 
 # properties whose link theorems are registered (a property is added here when its CLink module is complete)
-ENABLED = ["C17", "C10", "C14", "C01", "C04"]
+ENABLED = ["C17", "C10", "C14", "C01", "C04", "C05", "C07", "C08", "C13"]
 
 U32 = 2 ** 32
 
@@ -243,7 +273,34 @@ def ops_io(r, n):
     return ops
 
 
-OPS = {"bits": ops_bits, "intervals": ops_intervals, "pdu": ops_pdu, "hash": ops_hash, "conv": ops_conv, "io": ops_io}
+def ops_fsm(r, n):
+    """random sockets in every state and random answers of the callees: the translated state machine next to the skeleton specification"""
+    ops = []
+
+    def sock(state=None):
+        lu = r.choice([0, 0, 100, 1000, r.randrange(1, 10 ** 6)])
+        return [r.choice([1, 300, 3600, 86400]), lu, r.choice([600, 7200, 172800, U32 - 1]), r.choice([0, 1, 30, 600, 7200]), r.choice([0, 1, 2, 3]),
+                r.randrange(0, 12) if state is None else state, r.randrange(65536), r.choice([0, 1]), r.randrange(U32), r.choice([0, 5]),
+                r.choice([0, 1]), r.choice([0, 1]), r.choice([0, 1])]
+    for _ in range(max(150, n)):
+        s0 = sock(r.choice(list(range(11)) + [0, 0, 1, 7, 8, 5, 6]))
+        answers = []
+        cur = list(s0)
+        for _k in range(r.randrange(1, 14)):
+            nxt = list(cur)
+            if r.random() < 0.7:
+                nxt[5] = r.choice([0, 1, 2, 3, 4, 5, 6, 7, 8, 9])
+            if r.random() < 0.2:
+                nxt = sock(nxt[5])
+            rc = r.choice([0, 0, 0, -1, -1, -2, -4, 1])
+            aux = r.choice([0, cur[1] + cur[2], cur[1] + cur[2] + 1, cur[1] + cur[2] - 1, r.randrange(10 ** 7)])
+            answers.append("%d %d %s" % (rc, aux, " ".join(str(x) for x in nxt)))
+            cur = nxt
+        ops.append("fsm_replay %d %s ; %s" % (r.randrange(1, 8), " ".join(str(x) for x in s0), " ; ".join(answers)))
+    return ops
+
+
+OPS = {"fsm": ops_fsm, "bits": ops_bits, "intervals": ops_intervals, "pdu": ops_pdu, "hash": ops_hash, "conv": ops_conv, "io": ops_io}
 
 
 def search(pid, tier):
@@ -298,6 +355,9 @@ def link(rep, pid, tier=None):
             rep.obligations[t] = False
         link_log = info["error"]
     bad, nops, note = search(pid, tier)
+    if L.get("xtrace") and "error" not in info:
+        import xtracecheck
+        xtracecheck.check(rep, tier)      # translator validation: real runs of the state machine replayed on its translation
     tie["search_inputs"] = nops
     tie["search_differences"] = None if bad is None else len(bad)
     if bad:
